@@ -107,7 +107,28 @@ theorem certified_minimal (n : Nat) (rows : List GeRow) (c w y : List Rat) (ε :
   have := weak_duality_sound n rows c y x' hd hx'
   linarith
 
+/-- **Farkas, as checked**: if `y` passes `farkasOk`, NO point satisfies all rows (the flat LP is infeasible) -/
+theorem farkas_sound (n : Nat) (rows : List GeRow) (y : List Rat) (h : farkasOk n rows y = true) :
+    ¬ ∃ x : List Rat, ∀ r ∈ rows, r.sat n x := by
+  rintro ⟨x, hx⟩
+  simp only [farkasOk, Bool.and_eq_true, decide_eq_true_eq] at h
+  obtain ⟨⟨h1, h2⟩, h3⟩ := h
+  have hd : dualOk n rows [] y = true := by
+    simp only [dualOk, Bool.and_eq_true]
+    refine ⟨h1, ?_⟩
+    simpa using h2
+  have := weak_duality_sound n rows [] y x hd hx
+  have hz : dotN n [] x = 0 := by
+    simp only [dotN]
+    have : (fun i => ([] : List Rat).getD i 0 * x.getD i 0) = fun _ => 0 := by funext i; simp
+    rw [this, sumTo_zero]
+  rw [hz] at this
+  linarith
+
 /-- the hypotheses are satisfiable by a non-trivial value (test on literals): minimise x0 + x1 s.t. x0 ≥ 1, x1 ≥ 2, x0 + x1 ≥ 2 -/
 example : optimalPairB 2 [⟨[1, 0], 1⟩, ⟨[0, 1], 2⟩, ⟨[1, 1], 2⟩] [1, 1] [1, 2] [1, 1, 0] = true := by decide +kernel
+
+/-- x ≥ 1 and −x ≥ 0 is infeasible: multipliers (1, 1) (test on literals) -/
+example : farkasOk 1 [⟨[1], 1⟩, ⟨[-1], 0⟩] [1, 1] = true := by decide +kernel
 
 end AITB.FLP
